@@ -481,7 +481,10 @@ theorem flatS_ins {v : HTerm} {S : Node} {n : Nat} (hw : WF S n) :
           insUpd (flatS pre S) (pre ++ rest) v (secondLast (pathKeys (pre ++ rest) pre S)) last
             (cpre (pre ++ rest) last) k) ∧
         topKey pre (ins S rest v).1 =
-          (if (pathKeys (pre ++ rest) pre S).length = 1 then cpre (pre ++ rest) last else topKey pre S) := by
+          (if (pathKeys (pre ++ rest) pre S).length = 1 then cpre (pre ++ rest) last else topKey pre S) ∧
+        flatS pre S (cpre (pre ++ rest) last) = none ∧
+        (∀ P, secondLast (pathKeys (pre ++ rest) pre S) = some P →
+          P <+: cpre (pre ++ rest) last ∧ P.length < (cpre (pre ++ rest) last).length) := by
   induction hw with
   | @value w hwv =>
     intro pre rest hr habs
@@ -513,20 +516,25 @@ theorem flatS_ins {v : HTerm} {S : Node} {n : Nat} (hw : WF S n) :
               (cpre ((pre ++ [b]) ++ ks) last) k) ∧
           topKey (pre ++ [b]) (ins (child b l r) ks v).1 =
             (if (pathKeys ((pre ++ [b]) ++ ks) (pre ++ [b]) (child b l r)).length = 1
-              then cpre ((pre ++ [b]) ++ ks) last else topKey (pre ++ [b]) (child b l r)) := by
+              then cpre ((pre ++ [b]) ++ ks) last else topKey (pre ++ [b]) (child b l r)) ∧
+          flatS (pre ++ [b]) (child b l r) (cpre ((pre ++ [b]) ++ ks) last) = none ∧
+          (∀ P, secondLast (pathKeys ((pre ++ [b]) ++ ks) (pre ++ [b]) (child b l r)) = some P →
+            P <+: cpre ((pre ++ [b]) ++ ks) last ∧ P.length < (cpre ((pre ++ [b]) ++ ks) last).length) := by
         cases b
         · exact ihl (pre ++ [false]) ks hks hchild
         · exact ihr (pre ++ [true]) ks hks hchild
-      obtain ⟨last, h1, h2, h3, h4⟩ := ih
-      rw [← hkey] at h1 h2 h3 h4
+      obtain ⟨last, h1, h2, h3, h4, h5, h6⟩ := ih
+      rw [← hkey] at h1 h2 h3 h4 h5 h6
       obtain ⟨tl, htl⟩ := pathKeys_head (key := pre ++ b :: ks) hwc (pre ++ [b])
       obtain ⟨fl', hins⟩ := ins_bin l r fl b ks v
       have hpath := pathKeys_bin pre l r fl b ks
       -- abbreviations
-      generalize hP : pathKeys (pre ++ b :: ks) (pre ++ [b]) (child b l r) = pc at h1 h3 h4 htl hpath
-      generalize hC : cpre (pre ++ b :: ks) last = C at h2 h3 h4
+      generalize hP : pathKeys (pre ++ b :: ks) (pre ++ [b]) (child b l r) = pc at h1 h3 h4 h6 htl hpath
+      generalize hC : cpre (pre ++ b :: ks) last = C at h2 h3 h4 h5 h6
       generalize hc' : (ins (child b l r) ks v).1 = c' at h3 h4 hins
-      refine ⟨last, ?_, ?_, ?_, ?_⟩
+      have hCne : C ≠ pre := by
+        intro e; have := h2.length_le; rw [e] at this; simp at this; omega
+      refine ⟨last, ?_, ?_, ?_, ?_, ?_, ?_⟩
       · rw [hpath, htl]; rw [htl] at h1; simpa [List.getLast?_cons_cons] using h1
       · rw [hC]; exact (List.prefix_append _ _).trans h2
       · intro k
@@ -601,6 +609,18 @@ theorem flatS_ins {v : HTerm} {S : Node} {n : Nat} (hw : WF S n) :
         have : (pre :: pc).length ≠ 1 := by rw [htl]; simp
         simp only [this, if_false]
         cases b <;> simp [setChild, topKey]
+      · rw [hC, flatS_bin_child pre l r fl b C hCne, (prefix_dec _ _).mpr h2]
+        simpa using h5
+      · intro P hPs
+        rw [hC]
+        rw [hpath, secondLast_cons] at hPs
+        by_cases hlen1 : pc.length = 1
+        · simp only [hlen1, if_true, Option.some.injEq] at hPs
+          subst hPs
+          refine ⟨(List.prefix_append _ _).trans h2, ?_⟩
+          have := h2.length_le; simp at this; omega
+        · simp only [hlen1, if_false] at hPs
+          exact h6 P hPs
   | @edge p c n fl hp hc hne ih =>
     intro pre rest hrl habs
     have habs' : flatS (pre ++ p) c (pre ++ rest) = none := by simpa [flatS] using habs
@@ -610,8 +630,8 @@ theorem flatS_ins {v : HTerm} {S : Node} {n : Nat} (hw : WF S n) :
       have hkt : kt.length = n := by simp at hrl; omega
       have hassoc : pre ++ (p ++ kt) = (pre ++ p) ++ kt := by simp
       rw [hassoc] at habs'
-      obtain ⟨last, h1, h2, h3, h4⟩ := ih (pre ++ p) kt hkt habs'
-      rw [← hassoc] at h1 h2 h3 h4
+      obtain ⟨last, h1, h2, h3, h4, h5, h6⟩ := ih (pre ++ p) kt hkt habs'
+      rw [← hassoc] at h1 h2 h3 h4 h5 h6
       have hfull : (cpre p (p ++ kt)).length = p.length :=
         (cpre_full_iff p _).mpr hpre
       -- the walk inside `c` has at least two nodes
@@ -646,7 +666,8 @@ theorem flatS_ins {v : HTerm} {S : Node} {n : Nat} (hw : WF S n) :
           · have hd' : (ins c kt v).2 = false := by simpa using hd
             exact ⟨fl, by simp [hd', ins_clean hd']⟩
       obtain ⟨fl', hins⟩ := hins
-      refine ⟨last, by simpa [pathKeys] using h1, (List.prefix_append _ _).trans h2, ?_, ?_⟩
+      refine ⟨last, by simpa [pathKeys] using h1, (List.prefix_append _ _).trans h2, ?_, ?_,
+        by simpa [flatS] using h5, by simpa [pathKeys] using h6⟩
       · intro k
         rw [hins]
         simp only [flatS, pathKeys]
@@ -683,7 +704,7 @@ theorem flatS_ins {v : HTerm} {S : Node} {n : Nat} (hw : WF S n) :
         simp only [hf, if_false, e1, e2, e3, e4]
         cases pb <;> cases hme : m.isEmpty <;> simp [setChild]
       obtain ⟨fl1, fl2, hres⟩ := hres
-      refine ⟨pre ++ (m ++ pb :: prest), by simp [pathKeys, hpath], ?_, ?_, ?_⟩
+      refine ⟨pre ++ (m ++ pb :: prest), by simp [pathKeys, hpath], ?_, ?_, ?_, ?_, ?_⟩
       · rw [hC]; exact List.prefix_append _ _
       · intro k
         have hflat : flatS pre (ins (.edge (m ++ pb :: prest) c fl) (m ++ (!pb) :: krest) v).1 k =
@@ -745,6 +766,983 @@ theorem flatS_ins {v : HTerm} {S : Node} {n : Nat} (hw : WF S n) :
           subst this
           cases pb <;> simp [setChild, topKey]
         | false => simp [topKey]
+      · rw [hC]
+        simp only [flatS]
+        apply flatS_none_of_not_prefix
+        intro h
+        have := h.length_le
+        simp at this; omega
+      · intro P hPs
+        simp [pathKeys, hpath, secondLast] at hPs
+
+theorem ins_edge_descend (p : Path) (c : Node) (fl : Flags) (kt : Path) (v : HTerm) (hp : p ≠ []) :
+    ∃ fl', (ins (.edge p c fl) (p ++ kt) v).1 = .edge p (ins c kt v).1 fl' := by
+  have hfull : (cpre p (p ++ kt)).length = p.length :=
+    (cpre_full_iff p _).mpr (List.isPrefixOf_iff_prefix.mpr (List.prefix_append _ _))
+  rw [ins_edge_eq _ _ _ _ _ (by intro e; simp at e; exact hp e.1)]
+  simp only [hfull, if_true, List.drop_left]
+  by_cases hd : (ins c kt v).2 = true
+  · exact ⟨Flags.new, by simp [hd]⟩
+  · have hd' : (ins c kt v).2 = false := by simpa using hd
+    exact ⟨fl, by simp [hd', ins_clean hd']⟩
+
+/-- overwriting a present key only changes that leaf -/
+theorem flatS_ins_present {v : HTerm} {S : Node} {n : Nat} (hw : WF S n) :
+    ∀ (pre rest : Path), rest.length = n → flatS pre S (pre ++ rest) ≠ none →
+      (∀ k, flatS pre (ins S rest v).1 k = if k = pre ++ rest then some (.leaf v) else flatS pre S k) ∧
+      topKey pre (ins S rest v).1 = topKey pre S := by
+  induction hw with
+  | @value w hwv =>
+    intro pre rest hr _
+    have : rest = [] := List.length_eq_zero_iff.mp hr
+    subst this
+    refine ⟨?_, by simp [ins, topKey]⟩
+    intro k
+    simp only [ins, flatS, List.append_nil]
+    split <;> rfl
+  | @edge p c n fl hp hc hne ih =>
+    intro pre rest hrl hpres
+    have hpres' : flatS (pre ++ p) c (pre ++ rest) ≠ none := by simpa [flatS] using hpres
+    have hpp : p <+: rest := by
+      cases hx : flatS (pre ++ p) c (pre ++ rest) with
+      | none => exact absurd hx hpres'
+      | some x =>
+        have := flatS_prefix hx
+        obtain ⟨t, ht⟩ := this
+        rw [List.append_assoc] at ht
+        exact ⟨t, List.append_cancel_left ht⟩
+    obtain ⟨kt, rfl⟩ := hpp
+    have hkt : kt.length = n := by simp at hrl; omega
+    have hassoc : pre ++ (p ++ kt) = (pre ++ p) ++ kt := by simp
+    rw [hassoc] at hpres'
+    obtain ⟨h1, h2⟩ := ih (pre ++ p) kt hkt hpres'
+    obtain ⟨fl', hins⟩ := ins_edge_descend p c fl kt v hp
+    rw [hins]
+    refine ⟨?_, by simp [topKey]⟩
+    intro k
+    simp only [flatS]
+    rw [h1 k, hassoc]
+  | @bin l r n fl hl hr ihl ihr =>
+    intro pre rest hrl hpres
+    cases rest with
+    | nil => simp at hrl
+    | cons b ks =>
+      have hks : ks.length = n := by simpa using hrl
+      have hkey : pre ++ b :: ks = (pre ++ [b]) ++ ks := append_cons_assoc pre b ks
+      have hne_pre : pre ++ b :: ks ≠ pre := by
+        intro e; have := congrArg List.length e; simp at this
+      have hkeypre : (pre ++ [b]).isPrefixOf (pre ++ b :: ks) = true :=
+        (prefix_dec _ _).mpr (by rw [hkey]; exact List.prefix_append _ _)
+      have hchild : flatS (pre ++ [b]) (child b l r) ((pre ++ [b]) ++ ks) ≠ none := by
+        rw [← hkey]
+        have := flatS_bin_child pre l r fl b (pre ++ b :: ks) hne_pre
+        rw [hkeypre] at this
+        simpa [this] using hpres
+      have ih : (∀ k, flatS (pre ++ [b]) (ins (child b l r) ks v).1 k =
+            if k = (pre ++ [b]) ++ ks then some (.leaf v) else flatS (pre ++ [b]) (child b l r) k) ∧
+          topKey (pre ++ [b]) (ins (child b l r) ks v).1 = topKey (pre ++ [b]) (child b l r) := by
+        cases b
+        · exact ihl (pre ++ [false]) ks hks hchild
+        · exact ihr (pre ++ [true]) ks hks hchild
+      obtain ⟨h1, h2⟩ := ih
+      obtain ⟨fl', hins⟩ := ins_bin l r fl b ks v
+      rw [hins]
+      refine ⟨?_, by cases b <;> simp [setChild, topKey]⟩
+      intro k
+      rw [flatS_setChild]
+      by_cases hkpre : k = pre
+      · subst hkpre
+        have hk1 : ¬ k = k ++ b :: ks := fun e => hne_pre e.symm
+        simp only [if_true, hk1, if_false, flatS]
+        cases b
+        · simp only [child, Bool.false_eq_true, if_false] at h2 ⊢; rw [h2]
+        · simp only [child, if_true] at h2 ⊢; rw [h2]
+      · simp only [hkpre, if_false]
+        have hold := flatS_bin_child pre l r fl b k hkpre
+        by_cases hkin : (pre ++ [b]).isPrefixOf k = true
+        · simp only [hkin, if_true] at hold ⊢
+          rw [h1 k, hold, hkey]
+        · have hkin' : (pre ++ [b]).isPrefixOf k = false := Bool.eq_false_iff.mpr hkin
+          simp only [hkin', Bool.false_eq_true, if_false] at hold ⊢
+          have c1 : ¬ k = pre ++ b :: ks := by
+            intro e; apply hkin; rw [e]; exact hkeypre
+          simp [c1, hold]
+
+/-! ### `insertOrUpdateValue` on the store -/
+
+theorem secondLast_of_reverse {α : Type} (l : List α) :
+    (∀ a b rest, l.reverse = a :: b :: rest → secondLast l = some b) ∧
+    ((l.reverse = [] ∨ ∃ a, l.reverse = [a]) → secondLast l = none) := by
+  constructor
+  · intro a b rest h
+    have : l = (a :: b :: rest).reverse := by rw [← h, List.reverse_reverse]
+    subst this
+    simp [secondLast]
+  · intro h
+    rcases h with h | ⟨a, h⟩
+    · have : l = [] := by simpa using h
+      subst this; rfl
+    · have : l = [a] := by
+        have := congrArg List.reverse h; simpa using this
+      subst this; simp [secondLast]
+
+def relinkNode (nd : LNode) (old new : Path) : LNode :=
+  if nd.left = some old then { nd with left := some new } else { nd with right := some new }
+
+theorem iouv_spec (tr : Trie) (key : Path) (node : LNode) (nodes : List (Path × LNode)) (sib : Path × LNode) :
+    let C := cpre key sib.1
+    let np : LNode := ⟨.h tr.kind
+        (nodeHash tr.kind (if key.getD C.length false then sib.2 else node)
+          (relPath (if key.getD C.length false then sib.1 else key) (some C)))
+        (nodeHash tr.kind (if key.getD C.length false then node else sib.2)
+          (relPath (if key.getD C.length false then key else sib.1) (some C))),
+      some (if key.getD C.length false then sib.1 else key), some (if key.getD C.length false then key else sib.1)⟩
+    let r := insertOrUpdateValue tr key node nodes sib
+    r.height = tr.height ∧ r.kind = tr.kind ∧
+    match secondLast nodes with
+    | some e =>
+      (∀ k, sget r.store k = if k = key then some node else if k = e.1 then some (relinkNode e.2 sib.1 C)
+        else if k = C then some np else sget tr.store k) ∧
+      r.dirty = tr.dirty ++ [C] ∧ r.rootKey = tr.rootKey
+    | none =>
+      (∀ k, sget r.store k = if k = key then some node else if k = C then some np else sget tr.store k) ∧
+      r.dirty = tr.dirty ∧ r.rootKey = some C := by
+  intro C np r
+  obtain ⟨h2, h1⟩ := secondLast_of_reverse nodes
+  cases hrev : nodes.reverse with
+  | nil =>
+    rw [h1 (Or.inl hrev)]
+    simp only [r, insertOrUpdateValue, hrev, setRootKey]
+    refine ⟨trivial, trivial, ?_, trivial, rfl⟩
+    intro k; simp only [sget_sput]; rfl
+  | cons a rest =>
+    cases rest with
+    | nil =>
+      rw [h1 (Or.inr ⟨a, hrev⟩)]
+      simp only [r, insertOrUpdateValue, hrev, setRootKey]
+      refine ⟨trivial, trivial, ?_, trivial, rfl⟩
+      intro k; simp only [sget_sput]; rfl
+    | cons b rest2 =>
+      rw [h2 a b rest2 hrev]
+      simp only [r, insertOrUpdateValue, hrev]
+      refine ⟨trivial, trivial, ?_, rfl, trivial⟩
+      intro k
+      simp only [sget_sput, relinkNode]
+      rfl
+
+/-! ### the representation invariant -/
+
+def DirtyBelow (dirty : List Path) (K : Path) : Prop := ∃ d ∈ dirty, K.length < d.length ∧ K <+: d
+
+/-- the cached value of an inner node is the hash of its children's stored values -/
+def LocalOK (kind : HashKind) (s : Store) (K : Path) (nd : LNode) : Prop :=
+  ∀ L R, nd.left = some L → nd.right = some R →
+    ∃ nl nr, sget s L = some nl ∧ sget s R = some nr ∧
+      nd.value = .h kind (nodeHash kind nl (relPath L (some K))) (nodeHash kind nr (relPath R (some K)))
+
+def rootKeyOf : Node → Option Path
+  | .nil => none
+  | t => some (topKey [] t)
+
+structure Repr (tr : Trie) (t : Node) (n : Nat) : Prop where
+  height : tr.height = n
+  wf : WFRoot t n
+  agree : ∀ k, Matches (sget tr.store k) (flatS [] t k)
+  root : tr.rootKey = rootKeyOf t
+  cache : ∀ K nd, sget tr.store K = some nd → LocalOK tr.kind tr.store K nd ∨ DirtyBelow tr.dirty K
+
+theorem top_exists {S : Node} {n : Nat} (hw : WF S n) (pre : Path) : flatS pre S (topKey pre S) ≠ none := by
+  induction hw generalizing pre with
+  | value _ => simp [flatS, topKey]
+  | @edge p c n fl hp hc hne ih =>
+    have := ih (pre ++ p)
+    cases c with
+    | edge _ _ _ => simp [NotEdge] at hne
+    | _ => simpa [flatS, topKey] using this
+  | bin _ _ _ _ => simp [flatS, topKey]
+
+theorem link_facts {S : Node} {n : Nat} (hw : WF S n) :
+    ∀ (pre K L R : Path), flatS pre S K = some (.inner L R) →
+      (K ++ [false]) <+: L ∧ (K ++ [true]) <+: R ∧ flatS pre S L ≠ none ∧ flatS pre S R ≠ none := by
+  induction hw with
+  | value _ =>
+    intro pre K L R h
+    simp only [flatS] at h
+    split at h <;> simp at h
+  | edge _ _ _ ih => intro pre K L R h; exact ih _ K L R (by simpa [flatS] using h)
+  | @bin l r n fl hl hr ihl ihr =>
+    intro pre K L R h
+    by_cases hk : K = pre
+    · subst hk
+      simp only [flatS, if_true, Option.some.injEq, Shape.inner.injEq] at h
+      obtain ⟨rfl, rfl⟩ := h
+      have pl := topKey_prefix (K ++ [false]) l
+      have pr := topKey_prefix (K ++ [true]) r
+      refine ⟨pl, pr, ?_, ?_⟩
+      · have hne : topKey (K ++ [false]) l ≠ K := by
+          intro e; have := pl.length_le; rw [e] at this; simp at this; omega
+        rw [flatS_bin_child K l r fl false _ hne, (prefix_dec _ _).mpr pl]
+        simpa [child] using top_exists hl (K ++ [false])
+      · have hne : topKey (K ++ [true]) r ≠ K := by
+          intro e; have := pr.length_le; rw [e] at this; simp at this; omega
+        rw [flatS_bin_child K l r fl true _ hne, (prefix_dec _ _).mpr pr]
+        simpa [child] using top_exists hr (K ++ [true])
+    · have h0 := flatS_bin_child pre l r fl false K hk
+      rw [h] at h0
+      by_cases hin : (pre ++ [false]).isPrefixOf K = true
+      · simp only [hin, if_true, child, Bool.false_eq_true, if_false] at h0
+        obtain ⟨a, b, c, d⟩ := ihl _ K L R h0.symm
+        have hL : (pre ++ [false]) <+: L :=
+          ((prefix_dec _ _).mp hin).trans ((List.prefix_append _ _).trans a)
+        have hR : (pre ++ [false]) <+: R :=
+          ((prefix_dec _ _).mp hin).trans ((List.prefix_append _ _).trans b)
+        have hLne : L ≠ pre := by intro e; have := hL.length_le; rw [e] at this; simp at this; omega
+        have hRne : R ≠ pre := by intro e; have := hR.length_le; rw [e] at this; simp at this; omega
+        refine ⟨a, b, ?_, ?_⟩
+        · rw [flatS_bin_child pre l r fl false L hLne, (prefix_dec _ _).mpr hL]; simpa [child] using c
+        · rw [flatS_bin_child pre l r fl false R hRne, (prefix_dec _ _).mpr hR]; simpa [child] using d
+      · have hin' : (pre ++ [false]).isPrefixOf K = false := Bool.eq_false_iff.mpr hin
+        simp only [hin', Bool.false_eq_true, if_false, child, Bool.not_false, if_true] at h0
+        obtain ⟨a, b, c, d⟩ := ihr _ K L R h0.symm
+        have hK : (pre ++ [true]) <+: K := flatS_prefix h0.symm
+        have hL : (pre ++ [true]) <+: L := hK.trans ((List.prefix_append _ _).trans a)
+        have hR : (pre ++ [true]) <+: R := hK.trans ((List.prefix_append _ _).trans b)
+        have hLne : L ≠ pre := by intro e; have := hL.length_le; rw [e] at this; simp at this; omega
+        have hRne : R ≠ pre := by intro e; have := hR.length_le; rw [e] at this; simp at this; omega
+        refine ⟨a, b, ?_, ?_⟩
+        · rw [flatS_bin_child pre l r fl true L hLne, (prefix_dec _ _).mpr hL]; simpa [child] using c
+        · rw [flatS_bin_child pre l r fl true R hRne, (prefix_dec _ _).mpr hR]; simpa [child] using d
+
+theorem secondLast_map {α β : Type} (f : α → β) (l : List α) :
+    secondLast (l.map f) = (secondLast l).map f := by
+  unfold secondLast
+  rw [← List.map_dropLast, List.getLast?_map]
+
+theorem matches_some_iff {o : Option LNode} {sh : Option Shape} (h : Matches o sh) :
+    o = none ↔ sh = none := by
+  cases sh with
+  | none => simpa [Matches] using h
+  | some x =>
+    cases x with
+    | leaf v => simp [Matches] at h; simp [h]
+    | inner l r => simp only [Matches] at h; obtain ⟨c, hc⟩ := h; simp [hc]
+
+theorem dirtyBelow_mono {dirty : List Path} {K : Path} (h : DirtyBelow dirty K) (extra : List Path) :
+    DirtyBelow (dirty ++ extra) K := by
+  obtain ⟨d, hd, h1, h2⟩ := h
+  exact ⟨d, List.mem_append_left _ hd, h1, h2⟩
+
+theorem root_of_wf {t : Node} {n : Nat} (h : WF t n) : rootKeyOf t = some (topKey [] t) := by
+  cases h <;> rfl
+
+/-- `Put` of a non-zero value to a key that is present (`updateLeaf`) -/
+theorem put_present {tr : Trie} {t : Node} {n : Nat} (hr : Repr tr t n) (key : Path) (hk : key.length = n)
+    (v : HTerm) (hv : v ≠ .felt 0) (hp : sget tr.store key ≠ none) :
+    ∃ tr', put tr key v = some tr' ∧ Repr tr' (ins t key v).1 n ∧ tr'.kind = tr.kind := by
+  have hsome : (sget tr.store key).isSome = true := by
+    cases h : sget tr.store key with
+    | none => exact absurd h hp
+    | some _ => rfl
+  have hb : (v != HTerm.felt 0) = true := by simpa using hv
+  refine ⟨{ tr with store := sput tr.store key ⟨v, none, none⟩, dirty := tr.dirty ++ [key] },
+    by simp [put, hb, hsome], ?_, rfl⟩
+  have hflat : flatS [] t ([] ++ key) ≠ none := by
+    intro e
+    exact hp ((matches_some_iff (hr.agree key)).mpr (by simpa using e))
+  have hwf : WF t n := by
+    cases hr.wf with
+    | inl e => subst e; simp [flatS] at hflat
+    | inr w => exact w
+  obtain ⟨f1, f2⟩ := flatS_ins_present (v := v) hwf [] key hk hflat
+  simp only [List.nil_append] at f1
+  have hwf' := (ins_spec hwf key hk v hv).1
+  refine ⟨hr.height, Or.inr hwf', ?_, ?_, ?_⟩
+  · intro k
+    simp only [sget_sput]
+    rw [f1 k]
+    by_cases e : k = key
+    · simp [e, Matches]
+    · simpa [e] using hr.agree k
+  · show tr.rootKey = _
+    rw [root_of_wf hwf', f2, hr.root, root_of_wf hwf]
+  · intro K nd hK
+    simp only [sget_sput] at hK
+    by_cases e : K = key
+    · simp only [e, if_true, Option.some.injEq] at hK
+      subst hK
+      left; intro L R hL; simp at hL
+    · simp only [e, if_false] at hK
+      cases hr.cache K nd hK with
+      | inr hd => exact Or.inr (dirtyBelow_mono hd _)
+      | inl hl =>
+        by_cases hlink : nd.left = some key ∨ nd.right = some key
+        · -- the parent of the overwritten leaf
+          right
+          have hm := hr.agree K
+          rw [hK] at hm
+          cases hsh : flatS [] t K with
+          | none => rw [hsh] at hm; simp [Matches] at hm
+          | some sh =>
+            rw [hsh] at hm
+            cases sh with
+            | leaf w =>
+              simp only [Matches, Option.some.injEq] at hm; subst hm
+              rcases hlink with h | h <;> simp at h
+            | inner L R =>
+              simp only [Matches, Option.some.injEq] at hm
+              obtain ⟨c, hc⟩ := hm; subst hc
+              obtain ⟨a, b, _, _⟩ := link_facts hwf [] K L R hsh
+              refine ⟨key, by simp, ?_, ?_⟩
+              · rcases hlink with h | h
+                · simp only [Option.some.injEq] at h; subst h
+                  have := a.length_le; simp at this; omega
+                · simp only [Option.some.injEq] at h; subst h
+                  have := b.length_le; simp at this; omega
+              · rcases hlink with h | h
+                · simp only [Option.some.injEq] at h; subst h
+                  exact (List.prefix_append _ _).trans a
+                · simp only [Option.some.injEq] at h; subst h
+                  exact (List.prefix_append _ _).trans b
+        · left
+          intro L R hL hR
+          obtain ⟨nl, nr, a, b, c⟩ := hl L R hL hR
+          have hLk : L ≠ key := fun e => hlink (Or.inl (by rw [hL, e]))
+          have hRk : R ≠ key := fun e => hlink (Or.inr (by rw [hR, e]))
+          exact ⟨nl, nr, by simp [sget_sput, hLk, a], by simp [sget_sput, hRk, b], c⟩
+
+/-- `Put` of a non-zero value into the empty trie (`handleEmptyTrie`) -/
+theorem put_empty {tr : Trie} {n : Nat} (hr : Repr tr .nil n) (key : Path) (hk : key.length = n)
+    (v : HTerm) (hv : v ≠ .felt 0) :
+    ∃ tr', put tr key v = some tr' ∧ Repr tr' (ins .nil key v).1 n ∧ tr'.kind = tr.kind := by
+  have hnone : ∀ k, sget tr.store k = none := by
+    intro k; have := hr.agree k; simpa [flatS, Matches] using this
+  have hroot : tr.rootKey = none := hr.root
+  have hb : (v == HTerm.felt 0) = false := by simpa using hv
+  have hput : put tr key v = some (setRootKey { tr with store := sput tr.store key ⟨v, none, none⟩ } (some key)) := by
+    simp [put, hnone, hroot, nodesFromRoot, hb]
+  refine ⟨_, hput, ?_, rfl⟩
+  obtain ⟨w, g⟩ := ins_nil_spec key v hv
+  refine ⟨hr.height, Or.inr (hk ▸ w), ?_, ?_, ?_⟩
+  · intro k
+    simp only [setRootKey, sget_sput, hnone]
+    cases key with
+    | nil =>
+      by_cases e : k = [] <;> simp [ins, flatS, e, Matches]
+    | cons b ks =>
+      by_cases e : k = b :: ks <;> simp [ins, flatS, e, Matches]
+  · cases key with
+    | nil => simp [setRootKey, ins, topKey, rootKeyOf]
+    | cons b ks => simp [setRootKey, ins, topKey, rootKeyOf]
+  · intro K nd hK
+    simp only [setRootKey, sget_sput, hnone] at hK
+    by_cases e : K = key
+    · simp only [e, if_true, Option.some.injEq] at hK
+      subst hK
+      left; intro L R hL; simp at hL
+    · simp [e] at hK
+
+theorem leaf_depth {S : Node} {n : Nat} (hw : WF S n) :
+    ∀ (pre K : Path) (w : HTerm), flatS pre S K = some (.leaf w) → K.length = pre.length + n := by
+  induction hw with
+  | value _ =>
+    intro pre K w h
+    simp only [flatS] at h
+    split at h
+    · rename_i e; subst e; simp
+    · simp at h
+  | edge _ _ _ ih =>
+    intro pre K w h
+    have := ih _ K w (by simpa [flatS] using h)
+    simp at this; omega
+  | @bin l r n fl hl hr ihl ihr =>
+    intro pre K w h
+    by_cases hk : K = pre
+    · subst hk; simp [flatS] at h
+    · have h0 := flatS_bin_child pre l r fl false K hk
+      rw [h] at h0
+      by_cases hin : (pre ++ [false]).isPrefixOf K = true
+      · simp only [hin, if_true, child, Bool.false_eq_true, if_false] at h0
+        have := ihl _ K w h0.symm; simp at this; omega
+      · have hin' : (pre ++ [false]).isPrefixOf K = false := Bool.eq_false_iff.mpr hin
+        simp only [hin', Bool.false_eq_true, if_false, child, Bool.not_false, if_true] at h0
+        have := ihr _ K w h0.symm; simp at this; omega
+
+theorem secondLast_none_iff {α : Type} (l : List α) : secondLast l = none ↔ l.length ≤ 1 := by
+  unfold secondLast
+  rw [List.getLast?_eq_none_iff]
+  cases l with
+  | nil => simp
+  | cons a t =>
+    cases t with
+    | nil => simp
+    | cons b u => simp [List.dropLast]
+
+theorem nodeHash_value (kind : HashKind) (a b : LNode) (p : Path) (h : a.value = b.value) :
+    nodeHash kind a p = nodeHash kind b p := by
+  simp [nodeHash, h]
+
+/-- `Put` of a non-zero value to an absent key of a non-empty trie (`insertOrUpdateValue`) -/
+theorem put_absent {tr : Trie} {t : Node} {n : Nat} (hr : Repr tr t n) (hwf : WF t n) (key : Path)
+    (hk : key.length = n) (v : HTerm) (hv : v ≠ .felt 0) (hab : sget tr.store key = none) :
+    ∃ tr', put tr key v = some tr' ∧ Repr tr' (ins t key v).1 n ∧ tr'.kind = tr.kind := by
+  have hflat : flatS [] t ([] ++ key) = none := by
+    simpa using (matches_some_iff (hr.agree key)).mp hab
+  obtain ⟨last, f1, _, f3, f4, f5, f6⟩ := flatS_ins (v := v) hwf [] key hk hflat
+  simp only [List.nil_append] at f1 f3 f4 f5 f6
+  obtain ⟨nodes, w1, w2, w3⟩ := walk (tr := tr) (key := key) hwf [] (tr.height + 2) []
+    (fun k _ => hr.agree k) (by simp [hk]) (by rw [hr.height]; omega) (Or.inl rfl)
+  simp only [List.nil_append] at w1
+  -- the sibling
+  have hlast : (nodes.map Prod.fst).getLast? = some last := by rw [w2]; exact f1
+  rw [List.getLast?_map] at hlast
+  cases hsib : nodes.getLast? with
+  | none => rw [hsib] at hlast; simp at hlast
+  | some sib =>
+    rw [hsib] at hlast
+    simp only [Option.map_some, Option.some.injEq] at hlast
+    have hsibmem : sib ∈ nodes := List.mem_of_getLast? hsib
+    have hsibs : sget tr.store sib.1 = some sib.2 := w3 sib hsibmem
+    have hsibs' : sget tr.store last = some sib.2 := hlast ▸ hsibs
+    have hne : key ≠ sib.1 := by
+      intro e; rw [← e, hab] at hsibs; simp at hsibs
+    have hnodes : nodes ≠ [] := by intro e; subst e; simp at hsib
+    have hroot : tr.rootKey = some (topKey [] t) := by rw [hr.root, root_of_wf hwf]
+    have hb1 : (v != HTerm.felt 0 && (sget tr.store key).isSome) = false := by simp [hab]
+    have hb2 : (v == HTerm.felt 0) = false := by simpa using hv
+    have hput : put tr key v = some (insertOrUpdateValue tr key ⟨v, none, none⟩ nodes sib) := by
+      simp only [put, hb1, Bool.false_eq_true, if_false, hroot, w1]
+      cases nodes with
+      | nil => exact absurd rfl hnodes
+      | cons a rest => simp only [hsib, hne, if_false, hb2, Bool.false_eq_true]
+    refine ⟨_, hput, ?_, (iouv_spec tr key ⟨v, none, none⟩ nodes sib).2.1⟩
+    have hspec := iouv_spec tr key ⟨v, none, none⟩ nodes sib
+    simp only [hlast] at hspec
+    obtain ⟨sh, sk, hcase⟩ := hspec
+    have hsl : secondLast (pathKeys key [] t) = (secondLast nodes).map Prod.fst := by
+      rw [← w2, secondLast_map]
+    have hwf' := (ins_spec hwf key hk v hv).1
+    have hCabs : sget tr.store (cpre key last) = none :=
+      (matches_some_iff (hr.agree _)).mpr f5
+    have hClen : (cpre key last).length ≤ n := by
+      have := cpre_length_le key last; omega
+    cases hsp : secondLast nodes with
+    | none =>
+      rw [hsp] at hcase hsl
+      obtain ⟨c1, c2, c3⟩ := hcase
+      have hlen1 : (pathKeys key [] t).length = 1 := by
+        have h1 : nodes.length ≤ 1 := (secondLast_none_iff nodes).mp hsp
+        have h2 : nodes.length ≠ 0 := by intro e; exact hnodes (List.length_eq_zero_iff.mp e)
+        rw [← w2]; simp; omega
+      refine ⟨sh.trans hr.height, Or.inr hwf', ?_, ?_, ?_⟩
+      · intro k
+        rw [c1 k, f3 k, hsl]
+        unfold insUpd
+        by_cases e1 : k = key
+        · simp [e1, Matches]
+        · simp only [e1, if_false, Option.map_none]
+          have : ¬ (none : Option Path) = some k := by simp
+          simp only [this, if_false]
+          by_cases e2 : k = cpre key last
+          · simp only [e2, if_true]
+            cases key.getD (cpre key last).length false <;> simp [Matches]
+          · simpa [e2] using hr.agree k
+      · rw [c3, root_of_wf hwf', f4, hlen1]; simp
+      · intro K nd hK
+        rw [c1 K] at hK
+        by_cases e1 : K = key
+        · simp only [e1, if_true, Option.some.injEq] at hK
+          subst hK; left; intro L R hL; simp at hL
+        · simp only [e1, if_false] at hK
+          by_cases e2 : K = cpre key last
+          · -- the new inner node: consistent with its children by construction
+            simp only [e2, if_true, Option.some.injEq] at hK
+            subst hK
+            left
+            intro L R hL hR
+            simp only [Option.some.injEq] at hL hR
+            subst hL hR
+            have hs1 : sget (insertOrUpdateValue tr key ⟨v, none, none⟩ nodes sib).store last = some sib.2 := by
+              rw [c1 last]
+              have a1 : last ≠ key := fun e => hne (by rw [hlast]; exact e.symm)
+              have a2 : last ≠ cpre key last := by
+                intro e; rw [← e] at hCabs; rw [hCabs] at hsibs'; simp at hsibs'
+              simp [a1, a2, hsibs']
+            have hs2 : sget (insertOrUpdateValue tr key ⟨v, none, none⟩ nodes sib).store key = some ⟨v, none, none⟩ := by
+              rw [c1 key]; simp
+            rw [e2]
+            cases hbit : key.getD (cpre key last).length false
+            · exact ⟨_, _, hs2, hs1, by simp [sk, hbit]⟩
+            · exact ⟨_, _, hs1, hs2, by simp [sk, hbit]⟩
+          · simp only [e2, if_false] at hK
+            cases hr.cache K nd hK with
+            | inr hd => right; rw [c2]; exact hd
+            | inl hl =>
+              left
+              intro L R hL hR
+              obtain ⟨nl, nr, a, b, c⟩ := hl L R hL hR
+              have hLk : L ≠ key := by intro e; rw [e, hab] at a; simp at a
+              have hRk : R ≠ key := by intro e; rw [e, hab] at b; simp at b
+              have hLc : L ≠ cpre key last := by intro e; rw [e, hCabs] at a; simp at a
+              have hRc : R ≠ cpre key last := by intro e; rw [e, hCabs] at b; simp at b
+              exact ⟨nl, nr, by rw [c1 L]; simp [hLk, hLc, a], by rw [c1 R]; simp [hRk, hRc, b], by rw [sk]; exact c⟩
+    | some e =>
+      rw [hsp] at hcase hsl
+      obtain ⟨c1, c2, c3⟩ := hcase
+      simp only [Option.map_some] at hsl
+      obtain ⟨p1, p2⟩ := f6 e.1 hsl
+      have hemem : e ∈ nodes := mem_of_secondLast hsp
+      have hes : sget tr.store e.1 = some e.2 := w3 e hemem
+      have hlen2 : (pathKeys key [] t).length ≠ 1 := by
+        intro h1
+        have : secondLast (pathKeys key [] t) = none := (secondLast_none_iff _).mpr (by omega)
+        rw [hsl] at this; simp at this
+      have hPk : e.1 ≠ key := by intro h; rw [h, hab] at hes; simp at hes
+      have hPc : e.1 ≠ cpre key last := by intro h; rw [h] at p2; omega
+      -- the parent is an inner node
+      have hPinner : ∃ L R, flatS [] t e.1 = some (.inner L R) := by
+        have hm := hr.agree e.1
+        rw [hes] at hm
+        cases hsh : flatS [] t e.1 with
+        | none => rw [hsh] at hm; simp [Matches] at hm
+        | some s0 =>
+          cases s0 with
+          | inner L R => exact ⟨L, R, rfl⟩
+          | leaf w =>
+            have := leaf_depth hwf [] e.1 w hsh
+            simp at this; omega
+      obtain ⟨PL, PR, hPsh⟩ := hPinner
+      refine ⟨sh.trans hr.height, Or.inr hwf', ?_, ?_, ?_⟩
+      · intro k
+        rw [c1 k, f3 k, hsl]
+        unfold insUpd
+        by_cases e1 : k = key
+        · simp [e1, Matches]
+        · simp only [e1, if_false]
+          by_cases e0 : k = e.1
+          · subst e0
+            simp only [if_true, hPsh, Option.map_some]
+            have hm := hr.agree e.1
+            rw [hes, hPsh] at hm
+            simp only [Matches, Option.some.injEq] at hm
+            obtain ⟨cv, hcv⟩ := hm
+            rw [hcv]
+            simp only [relinkNode, relink]
+            by_cases hl : PL = last
+            · simp [hl, Matches]
+            · simp [hl, Matches]
+          · have : ¬ some e.1 = some k := by simpa using fun h : e.1 = k => e0 h.symm
+            simp only [e0, this, if_false]
+            by_cases e2 : k = cpre key last
+            · simp only [e2, if_true]
+              cases key.getD (cpre key last).length false <;> simp [Matches]
+            · simpa [e2] using hr.agree k
+      · rw [c3, root_of_wf hwf', f4]; simp only [hlen2, if_false]; exact hroot
+      · intro K nd hK
+        rw [c1 K] at hK
+        by_cases e1 : K = key
+        · simp only [e1, if_true, Option.some.injEq] at hK
+          subst hK; left; intro L R hL; simp at hL
+        · simp only [e1, if_false] at hK
+          by_cases e0 : K = e.1
+          · -- the parent of the sibling: a dirty key (the new inner node) lies below it
+            right
+            rw [c2, e0]
+            exact ⟨cpre key last, by simp, p2, p1⟩
+          · simp only [e0, if_false] at hK
+            by_cases e2 : K = cpre key last
+            · simp only [e2, if_true, Option.some.injEq] at hK
+              subst hK
+              left
+              intro L R hL hR
+              simp only [Option.some.injEq] at hL hR
+              subst hL hR
+              have a1 : last ≠ key := fun e => hne (by rw [hlast]; exact e.symm)
+              have a2 : last ≠ cpre key last := by
+                intro h; rw [← h] at hCabs; rw [hCabs] at hsibs'; simp at hsibs'
+              have a3 : last ≠ e.1 := by
+                intro h
+                have l1 := cpre_length_le last key
+                rw [cpre_comm] at l1
+                rw [← h] at p2; omega
+              have hs1 : sget (insertOrUpdateValue tr key ⟨v, none, none⟩ nodes sib).store last = some sib.2 := by
+                rw [c1 last]; simp [a1, a2, a3, hsibs']
+              have hs2 : sget (insertOrUpdateValue tr key ⟨v, none, none⟩ nodes sib).store key = some ⟨v, none, none⟩ := by
+                rw [c1 key]; simp
+              rw [e2]
+              cases hbit : key.getD (cpre key last).length false
+              · exact ⟨_, _, hs2, hs1, by simp [sk, hbit]⟩
+              · exact ⟨_, _, hs1, hs2, by simp [sk, hbit]⟩
+            · simp only [e2, if_false] at hK
+              cases hr.cache K nd hK with
+              | inr hd => right; rw [c2]; exact dirtyBelow_mono hd _
+              | inl hl =>
+                left
+                intro L R hL hR
+                obtain ⟨nl, nr, a, b, c⟩ := hl L R hL hR
+                have hLk : L ≠ key := by intro h; rw [h, hab] at a; simp at a
+                have hRk : R ≠ key := by intro h; rw [h, hab] at b; simp at b
+                have hLc : L ≠ cpre key last := by intro h; rw [h, hCabs] at a; simp at a
+                have hRc : R ≠ cpre key last := by intro h; rw [h, hCabs] at b; simp at b
+                -- a child may be the relinked parent: same cached value
+                have getC : ∀ (X : Path) (nx : LNode), X ≠ key → X ≠ cpre key last → sget tr.store X = some nx →
+                    ∃ nx', sget (insertOrUpdateValue tr key ⟨v, none, none⟩ nodes sib).store X = some nx' ∧
+                      nx'.value = nx.value := by
+                  intro X nx h1 h2 h3
+                  rw [c1 X]
+                  by_cases hx : X = e.1
+                  · subst hx
+                    rw [hes] at h3
+                    simp only [Option.some.injEq] at h3; subst h3
+                    refine ⟨relinkNode e.2 last (cpre key last), by simp [h1], ?_⟩
+                    simp only [relinkNode]; split <;> rfl
+                  · exact ⟨nx, by simp [h1, hx, h2, h3], rfl⟩
+                obtain ⟨nl', gl1, gl2⟩ := getC L nl hLk hLc a
+                obtain ⟨nr', gr1, gr2⟩ := getC R nr hRk hRc b
+                refine ⟨nl', nr', gl1, gr1, ?_⟩
+                rw [sk, c, nodeHash_value _ nl' nl _ gl2, nodeHash_value _ nr' nr _ gr2]
+
+/-! ### `Hash()`: the lazy rehash -/
+
+/-- the tree below the leading edge (the part a legacy node stands for) -/
+def body : Node → Node
+  | .edge _ c _ => c
+  | t => t
+
+theorem shouldUpdate_iff (dirty : List Path) (key : Path) :
+    dirty.any (fun d => decide (key.length < d.length) && equalMSBs key d) = true ↔ DirtyBelow dirty key := by
+  simp only [List.any_eq_true, Bool.and_eq_true, decide_eq_true_eq, DirtyBelow]
+  constructor
+  · rintro ⟨d, hd, h1, h2⟩
+    refine ⟨d, hd, h1, ?_⟩
+    unfold equalMSBs at h2
+    have : key.length ≤ d.length := by omega
+    simp only [this, if_true] at h2
+    exact (prefix_dec _ _).mp h2
+  · rintro ⟨d, hd, h1, h2⟩
+    refine ⟨d, hd, h1, ?_⟩
+    unfold equalMSBs
+    have : key.length ≤ d.length := by omega
+    simp only [this, if_true]
+    exact (prefix_dec _ _).mpr h2
+
+theorem relPath_topKey (K : Path) (b : Bool) (S : Node) :
+    relPath (topKey (K ++ [b]) S) (some K) = (match S with | .edge p _ _ => p | _ => []) := by
+  cases S <;> simp [relPath, topKey]
+
+/-- hash of a subtree from the cached value of its top legacy node -/
+theorem nodeHash_sub (kind : HashKind) (K : Path) (b : Bool) {S : Node} {n : Nat} (hw : WF S n) (nd : LNode)
+    (hv : nd.value = rawHash kind (body S)) :
+    nodeHash kind nd (relPath (topKey (K ++ [b]) S) (some K)) = rawHash kind S := by
+  rw [relPath_topKey]
+  cases hw with
+  | value _ => simpa [nodeHash, body, rawHash] using hv
+  | bin _ _ => simpa [nodeHash, body] using hv
+  | @edge p c n fl hp hc hne =>
+    have : p.isEmpty = false := by cases p <;> simp_all
+    simp only [nodeHash, this, Bool.false_eq_true, if_false, rawHash, edgeHash]
+    simp only [body] at hv
+    rw [hv]
+
+def CacheH (kind : HashKind) (s : Store) (dirty : List Path) (pre : Path) : Prop :=
+  ∀ K nd, pre <+: K → sget s K = some nd → LocalOK kind s K nd ∨ DirtyBelow dirty K
+
+theorem flatS_topKey_prefix {pre : Path} {S : Node} {K : Path} {x : Shape} (h : flatS pre S K = some x) :
+    topKey pre S <+: K := by
+  cases S with
+  | edge p c fl =>
+    have h' : flatS (pre ++ p) c K = some x := by simpa [flatS] using h
+    exact flatS_prefix h'
+  | nil => simp [flatS] at h
+  | hash _ => simp [flatS] at h
+  | value v => simpa [topKey] using flatS_prefix h
+  | bin l r fl => simpa [topKey] using flatS_prefix h
+
+theorem dirtyBelow_of_prefix {dirty : List Path} {A B : Path} (hAB : A <+: B) (h : DirtyBelow dirty B) :
+    DirtyBelow dirty A := by
+  obtain ⟨d, hd, h1, h2⟩ := h
+  exact ⟨d, hd, by have := hAB.length_le; omega, hAB.trans h2⟩
+
+/-- below a node with no dirty key underneath, every cached value is the true hash -/
+theorem clean_value (kind : HashKind) {s : Store} {dirty : List Path} {S : Node} {n : Nat} (hw : WF S n) :
+    ∀ (pre : Path), AgreeAt s pre S → CacheH kind s dirty pre → ¬ DirtyBelow dirty (topKey pre S) →
+      ∃ nd, sget s (topKey pre S) = some nd ∧ nd.value = rawHash kind (body S) := by
+  induction hw with
+  | @value v hv =>
+    intro pre ha _ _
+    have := ha pre (List.prefix_refl _)
+    exact ⟨⟨v, none, none⟩, by simpa [flatS, Matches, topKey] using this, by simp [body, rawHash]⟩
+  | @edge p c n fl hp hc hne ih =>
+    intro pre ha hch hnd
+    have htk : topKey (pre ++ p) c = pre ++ p := by cases c <;> simp_all [topKey, NotEdge]
+    have hbc : body c = c := by cases c <;> simp_all [body, NotEdge]
+    obtain ⟨nd, h1, h2⟩ := ih (pre ++ p) ha.edge
+      (fun K nd hK hs => hch K nd ((List.prefix_append _ _).trans hK) hs)
+      (by rw [htk]; simpa [topKey] using hnd)
+    rw [htk] at h1; rw [hbc] at h2
+    exact ⟨nd, h1, h2⟩
+  | @bin l r n fl hl hr ihl ihr =>
+    intro pre ha hch hnd
+    simp only [topKey] at hnd ⊢
+    obtain ⟨cv, hs⟩ := ha.binTop
+    have hloc : LocalOK kind s pre ⟨cv, some (topKey (pre ++ [false]) l), some (topKey (pre ++ [true]) r)⟩ := by
+      cases hch pre _ (List.prefix_refl _) hs with
+      | inl h => exact h
+      | inr h => exact absurd h hnd
+    obtain ⟨nl, nr, a, b, c⟩ := hloc _ _ rfl rfl
+    have hsub : ∀ (bb : Bool) (ch : Node), ¬ DirtyBelow dirty (topKey (pre ++ [bb]) ch) := by
+      intro bb ch h
+      apply hnd
+      obtain ⟨d, hd, h1, h2⟩ := h
+      have hp := (List.prefix_append pre [bb]).trans (topKey_prefix (pre ++ [bb]) ch)
+      have hlt : pre.length < (topKey (pre ++ [bb]) ch).length := by
+        have := (topKey_prefix (pre ++ [bb]) ch).length_le; simp at this; omega
+      exact ⟨d, hd, by omega, hp.trans h2⟩
+    obtain ⟨ndl, l1, l2⟩ := ihl (pre ++ [false]) ha.binL
+      (fun K nd hK hs => hch K nd ((List.prefix_append _ _).trans hK) hs) (hsub false l)
+    obtain ⟨ndr, r1, r2⟩ := ihr (pre ++ [true]) ha.binR
+      (fun K nd hK hs => hch K nd ((List.prefix_append _ _).trans hK) hs) (hsub true r)
+    rw [a] at l1; rw [b] at r1
+    simp only [Option.some.injEq] at l1 r1
+    subst l1 r1
+    refine ⟨_, hs, ?_⟩
+    simp only [body, rawHash]
+    have c' : cv = _ := c
+    rw [c', nodeHash_sub kind pre false hl nl l2, nodeHash_sub kind pre true hr nr r2]
+
+/-- `updateValueIfDirty` on the subtree `S` at `pre`: returns the top node with the true hash of the
+body, leaves the store outside the subtree alone, keeps the shapes, and makes every cached value
+below consistent with its children. -/
+theorem upd_spec (height : Nat) (kind : HashKind) (dirty : List Path) {S : Node} {n : Nat} (hw : WF S n) :
+    ∀ (pre : Path) (s : Store) (fuel : Nat), AgreeAt s pre S → CacheH kind s dirty pre →
+      pre.length + n = height → n + 1 ≤ fuel →
+      ∃ nd s', updateValueIfDirty height kind dirty fuel s (topKey pre S) = some (nd, s') ∧
+        nd.value = rawHash kind (body S) ∧ sget s' (topKey pre S) = some nd ∧
+        (∀ k, ¬ pre <+: k → sget s' k = sget s k) ∧ AgreeAt s' pre S ∧
+        (∀ K nd', pre <+: K → sget s' K = some nd' → LocalOK kind s' K nd') := by
+  induction hw with
+  | @value v hv =>
+    intro pre s fuel ha hch hlen hf
+    cases fuel with
+    | zero => omega
+    | succ fuel =>
+      have hs : sget s pre = some ⟨v, none, none⟩ := by
+        have := ha pre (List.prefix_refl _); simpa [flatS, Matches] using this
+      have hl : (pre.length == height) = true := by simp; omega
+      refine ⟨⟨v, none, none⟩, s, by simp [topKey, updateValueIfDirty, hs, hl], by simp [body, rawHash],
+        by simpa [topKey] using hs, fun _ _ => rfl, ha, ?_⟩
+      intro K nd' hK hsK
+      have hm := ha K hK
+      rw [hsK] at hm
+      simp only [flatS] at hm
+      split at hm
+      · simp only [Matches, Option.some.injEq] at hm; subst hm
+        intro L R hL; simp at hL
+      · simp [Matches] at hm
+  | @edge p c n fl hp hc hne ih =>
+    intro pre s fuel ha hch hlen hf
+    have htk : topKey (pre ++ p) c = pre ++ p := by cases c <;> simp_all [topKey, NotEdge]
+    have hbc : body c = c := by cases c <;> simp_all [body, NotEdge]
+    obtain ⟨nd, s', h1, h2, h3, h4, h5, h6⟩ := ih (pre ++ p) s fuel ha.edge
+      (fun K nd hK hs => hch K nd ((List.prefix_append _ _).trans hK) hs) (by simp; omega) (by omega)
+    rw [htk] at h1 h3; rw [hbc] at h2
+    refine ⟨nd, s', by simpa [topKey] using h1, by simpa [body] using h2, by simpa [topKey] using h3, ?_, ?_, ?_⟩
+    · intro k hk
+      exact h4 k (fun h => hk ((List.prefix_append _ _).trans h))
+    · intro k hk
+      by_cases hkp : (pre ++ p) <+: k
+      · simpa [flatS] using h5 k hkp
+      · rw [h4 k hkp]; exact ha k hk
+    · intro K nd' hK hsK
+      by_cases hkp : (pre ++ p) <+: K
+      · exact h6 K nd' hkp hsK
+      · -- no node of the subtree lives outside the edge
+        have hm := ha K hK
+        rw [← h4 K hkp, hsK] at hm
+        have : flatS pre (.edge p c fl) K = none := by
+          simp only [flatS]; exact flatS_none_of_not_prefix hkp
+        rw [this] at hm; simp [Matches] at hm
+  | @bin l r n fl hl hr ihl ihr =>
+    intro pre s fuel ha hch hlen hf
+    cases fuel with
+    | zero => omega
+    | succ fuel =>
+      obtain ⟨cv, hs⟩ := ha.binTop
+      have hl0 : (pre.length == height) = false := by
+        have : pre.length ≠ height := by omega
+        simpa using this
+      simp only [topKey]
+      by_cases hdb : DirtyBelow dirty pre
+      · -- recompute
+        have hsu : dirty.any (fun d => decide (pre.length < d.length) && equalMSBs pre d) = true :=
+          (shouldUpdate_iff dirty pre).mpr hdb
+        obtain ⟨lc, s1, a1, a2, a3, a4, a5, a6⟩ := ihl (pre ++ [false]) s fuel ha.binL
+          (fun K nd hK hs => hch K nd ((List.prefix_append _ _).trans hK) hs) (by simp; omega) (by omega)
+        -- the right subtree is untouched by the left recursion
+        have hframeR : ∀ k, (pre ++ [true]) <+: k → sget s1 k = sget s k := by
+          intro k hk
+          exact a4 k (by simpa using not_prefix_sibling pre true hk)
+        have haR : AgreeAt s1 (pre ++ [true]) r := by
+          intro k hk; rw [hframeR k hk]; exact ha.binR k hk
+        have hchR : CacheH kind s1 dirty (pre ++ [true]) := by
+          intro K nd hK hsK
+          rw [hframeR K hK] at hsK
+          cases hch K nd ((List.prefix_append _ _).trans hK) hsK with
+          | inr h => exact Or.inr h
+          | inl h =>
+            left
+            intro L R hL hR
+            obtain ⟨nl, nr, x, y, z⟩ := h L R hL hR
+            -- the children of a node of the right subtree are in the right subtree
+            have hm := ha.binR K hK
+            rw [hsK] at hm
+            cases hsh : flatS (pre ++ [true]) r K with
+            | none => rw [hsh] at hm; simp [Matches] at hm
+            | some sh =>
+              rw [hsh] at hm
+              cases sh with
+              | leaf w => simp only [Matches, Option.some.injEq] at hm; subst hm; simp at hL
+              | inner L' R' =>
+                simp only [Matches, Option.some.injEq] at hm
+                obtain ⟨c0, hc0⟩ := hm; subst hc0
+                simp only [Option.some.injEq] at hL hR; subst hL hR
+                obtain ⟨p1, p2, _, _⟩ := link_facts hr (pre ++ [true]) K L' R' hsh
+                have q1 : (pre ++ [true]) <+: L' := hK.trans ((List.prefix_append _ _).trans p1)
+                have q2 : (pre ++ [true]) <+: R' := hK.trans ((List.prefix_append _ _).trans p2)
+                exact ⟨nl, nr, by rw [hframeR _ q1]; exact x, by rw [hframeR _ q2]; exact y, z⟩
+        obtain ⟨rc, s2, b1, b2, b3, b4, b5, b6⟩ := ihr (pre ++ [true]) s1 fuel haR hchR (by simp; omega) (by omega)
+        let nd : LNode := ⟨.h kind (nodeHash kind lc (relPath (topKey (pre ++ [false]) l) (some pre)))
+          (nodeHash kind rc (relPath (topKey (pre ++ [true]) r) (some pre))),
+          some (topKey (pre ++ [false]) l), some (topKey (pre ++ [true]) r)⟩
+        have hLne : topKey (pre ++ [false]) l ≠ pre := by
+          intro e; have := (topKey_prefix (pre ++ [false]) l).length_le; rw [e] at this; simp at this; omega
+        have hRne : topKey (pre ++ [true]) r ≠ pre := by
+          intro e; have := (topKey_prefix (pre ++ [true]) r).length_le; rw [e] at this; simp at this; omega
+        have hLs2 : sget s2 (topKey (pre ++ [false]) l) = some lc := by
+          rw [b4 _ (by simpa using not_prefix_sibling pre false (topKey_prefix (pre ++ [false]) l))]; exact a3
+        refine ⟨nd, sput s2 pre nd, ?_, ?_, by simp [sget_sput], ?_, ?_, ?_⟩
+        · simp only [updateValueIfDirty, hs, hl0, Bool.false_eq_true, if_false, hsu, Bool.not_true, a1, b1]
+          rfl
+        · simp only [nd, body, rawHash]
+          rw [nodeHash_sub kind pre false hl lc a2, nodeHash_sub kind pre true hr rc b2]
+        · intro k hk
+          have hkne : k ≠ pre := fun e => hk (e ▸ List.prefix_refl _)
+          rw [sget_sput]; simp only [hkne, if_false]
+          rw [b4 k (fun h => hk ((List.prefix_append _ _).trans h)),
+              a4 k (fun h => hk ((List.prefix_append _ _).trans h))]
+        · intro k hk
+          rw [sget_sput]
+          by_cases hkp : k = pre
+          · subst hkp; simp [flatS, Matches, nd]
+          · simp only [hkp, if_false]
+            rw [flatS_bin_child pre l r fl false k hkp]
+            by_cases hin : (pre ++ [false]).isPrefixOf k = true
+            · simp only [hin, if_true, child, Bool.false_eq_true, if_false]
+              have hpk := (prefix_dec _ _).mp hin
+              rw [b4 k (by simpa using not_prefix_sibling pre false hpk)]
+              exact a5 k hpk
+            · have hin' : (pre ++ [false]).isPrefixOf k = false := Bool.eq_false_iff.mpr hin
+              simp only [hin', Bool.false_eq_true, if_false, child, Bool.not_false, if_true]
+              by_cases hin2 : (pre ++ [true]) <+: k
+              · exact b5 k hin2
+              · rw [b4 k hin2, a4 k (fun h => hin ((prefix_dec _ _).mpr h))]
+                have := ha k hk
+                rw [flatS_bin_child pre l r fl false k hkp] at this
+                simpa [hin', child] using this
+        · intro K nd' hK hsK
+          rw [sget_sput] at hsK
+          by_cases hkp : K = pre
+          · subst hkp
+            simp only [if_true, Option.some.injEq] at hsK; subst hsK
+            intro L R hL hR
+            simp only [nd, Option.some.injEq] at hL hR; subst hL hR
+            exact ⟨lc, rc, by rw [sget_sput]; simp [hLne, hLs2], by rw [sget_sput]; simp [hRne, b3], rfl⟩
+          · simp only [hkp, if_false] at hsK
+            -- a node of one of the two subtrees
+            have lift : ∀ (bb : Bool), (pre ++ [bb]) <+: K → LocalOK kind s2 K nd' →
+                LocalOK kind (sput s2 pre nd) K nd' := by
+              intro bb hb hloc L R hL hR
+              obtain ⟨nl, nr, x, y, z⟩ := hloc L R hL hR
+              have hlen : pre.length < L.length ∧ pre.length < R.length := by
+                -- links point downwards
+                have hm : Matches (sget s2 K) (flatS (pre ++ [bb]) (child bb l r) K) := by
+                  cases bb
+                  · rw [b4 K (by simpa using not_prefix_sibling pre false hb)]; exact a5 K hb
+                  · exact b5 K hb
+                rw [hsK] at hm
+                have hwc : WF (child bb l r) n := by cases bb <;> simp [child, hl, hr]
+                cases hsh : flatS (pre ++ [bb]) (child bb l r) K with
+                | none => rw [hsh] at hm; simp [Matches] at hm
+                | some sh =>
+                  rw [hsh] at hm
+                  cases sh with
+                  | leaf w => simp only [Matches, Option.some.injEq] at hm; subst hm; simp at hL
+                  | inner L' R' =>
+                    simp only [Matches, Option.some.injEq] at hm
+                    obtain ⟨c0, hc0⟩ := hm; subst hc0
+                    simp only [Option.some.injEq] at hL hR; subst hL hR
+                    obtain ⟨p1, p2, _, _⟩ := link_facts hwc (pre ++ [bb]) K L' R' hsh
+                    have l1 := (hb.trans ((List.prefix_append _ _).trans p1)).length_le
+                    have l2 := (hb.trans ((List.prefix_append _ _).trans p2)).length_le
+                    simp at l1 l2; omega
+              have hLp : L ≠ pre := by intro e; rw [e] at hlen; omega
+              have hRp : R ≠ pre := by intro e; rw [e] at hlen; omega
+              exact ⟨nl, nr, by rw [sget_sput]; simp [hLp, x], by rw [sget_sput]; simp [hRp, y], z⟩
+            by_cases hin : (pre ++ [false]) <+: K
+            · apply lift false hin
+              -- consistent after the left recursion, untouched by the right one
+              have hsK1 : sget s1 K = some nd' := by
+                rw [← b4 K (by simpa using not_prefix_sibling pre false hin)]; exact hsK
+              have hloc1 := a6 K nd' hin hsK1
+              intro L R hL hR
+              obtain ⟨nl, nr, x, y, z⟩ := hloc1 L R hL hR
+              have hm := a5 K hin
+              rw [hsK1] at hm
+              cases hsh : flatS (pre ++ [false]) l K with
+              | none => rw [hsh] at hm; simp [Matches] at hm
+              | some sh =>
+                rw [hsh] at hm
+                cases sh with
+                | leaf w => simp only [Matches, Option.some.injEq] at hm; subst hm; simp at hL
+                | inner L' R' =>
+                  simp only [Matches, Option.some.injEq] at hm
+                  obtain ⟨c0, hc0⟩ := hm; subst hc0
+                  simp only [Option.some.injEq] at hL hR; subst hL hR
+                  obtain ⟨p1, p2, _, _⟩ := link_facts hl (pre ++ [false]) K L' R' hsh
+                  have q1 : (pre ++ [false]) <+: L' := hin.trans ((List.prefix_append _ _).trans p1)
+                  have q2 : (pre ++ [false]) <+: R' := hin.trans ((List.prefix_append _ _).trans p2)
+                  exact ⟨nl, nr, by rw [b4 _ (by simpa using not_prefix_sibling pre false q1)]; exact x,
+                    by rw [b4 _ (by simpa using not_prefix_sibling pre false q2)]; exact y, z⟩
+            · by_cases hin2 : (pre ++ [true]) <+: K
+              · exact lift true hin2 (b6 K nd' hin2 hsK)
+              · -- no node lives there
+                exfalso
+                have hm := ha K hK
+                rw [← a4 K hin, ← b4 K hin2, hsK] at hm
+                rw [flatS_bin_child pre l r fl false K hkp, isPrefixOf_false_of_not hin] at hm
+                simp only [Bool.false_eq_true, if_false, child, Bool.not_false, if_true] at hm
+                rw [flatS_none_of_not_prefix hin2] at hm
+                simp [Matches] at hm
+      · -- nothing dirty below: everything cached here is already right
+        have hsu : dirty.any (fun d => decide (pre.length < d.length) && equalMSBs pre d) = false := by
+          cases h : dirty.any (fun d => decide (pre.length < d.length) && equalMSBs pre d) with
+          | false => rfl
+          | true => exact absurd ((shouldUpdate_iff dirty pre).mp h) hdb
+        obtain ⟨nd0, c1, c2⟩ := clean_value kind (WF.bin (fl := fl) hl hr) pre ha hch (by simpa [topKey] using hdb)
+        simp only [topKey] at c1
+        rw [hs] at c1
+        simp only [Option.some.injEq] at c1; subst c1
+        refine ⟨_, s, by simp [updateValueIfDirty, hs, hl0, hsu], c2, hs, fun _ _ => rfl, ha, ?_⟩
+        intro K nd' hK hsK
+        cases hch K nd' hK hsK with
+        | inl h => exact h
+        | inr h =>
+          exfalso
+          apply hdb
+          have hm := ha K hK
+          rw [hsK] at hm
+          cases hsh : flatS pre (.bin l r fl) K with
+          | none => rw [hsh] at hm; simp [Matches] at hm
+          | some sh => exact dirtyBelow_of_prefix (by simpa [topKey] using flatS_topKey_prefix hsh) h
 
 end Legacy
 end Juno.C01
